@@ -298,10 +298,50 @@ impl<'a> Ent<'a> {
             _ => self.data_addr(&[Region::Ram, Region::Dram], 2, 2),
         }
     }
+    /// "Environment noise": values in on-chip I/O registers that no listed property gives a meaning to (not the
+    /// bus controller, not the ports, not the 8-bit timers). The reference treats them as plain storage; an
+    /// implementation whose instruction semantics or exception entry secretly depends on one of them shows up
+    /// as a mismatch. One case in three gets one or two such bytes.
+    pub fn env_noise(&mut self) -> Vec<(u32, Vec<u8>)> {
+        let mut out = vec![];
+        if !self.chance(1, 3) {
+            return out;
+        }
+        for _ in 0..1 + self.below(2) {
+            let a = loop {
+                let a = if self.chance(1, 2) { 0xfee000 + self.below(0x100) } else { 0xffff20 + self.below(0xca) };
+                let reserved = matches!(a, 0xfee000..=0xfee00a | 0xfee020..=0xfee027 | 0xffff80..=0xffff99 | 0xffffd0..=0xffffda);
+                if !reserved {
+                    break a;
+                }
+            };
+            let v = match self.below(3) {
+                0 => 1u8 << self.below(8),
+                1 => 0xff,
+                _ => self.u8(),
+            };
+            out.push((a, vec![v]));
+        }
+        out
+    }
     pub fn bus_cfg(&mut self) -> BusCfg {
-        match self.below(4) {
+        match self.below(6) {
             0 => BusCfg::RUN_DEFAULT,
             1 => BusCfg::ZERO,
+            2 | 3 => {
+                // a common setting with exactly one register changed: consecutive cases on one emulator then
+                // differ by a single-register transition (only changed registers are rewritten)
+                let mut c = if self.chance(1, 2) { BusCfg::RUN_DEFAULT } else { BusCfg::ZERO };
+                let v = if self.chance(1, 2) { self.u8() } else { 1u8 << self.below(8) };
+                match self.below(5) {
+                    0 => c.abwcr ^= v,
+                    1 => c.astcr ^= v,
+                    2 => c.wcrh ^= v,
+                    3 => c.wcrl ^= v,
+                    _ => c.drcra = (c.drcra ^ 0x20) | (v & 0x1f),
+                }
+                c
+            }
             _ => BusCfg { abwcr: self.u8(), astcr: self.u8(), wcrh: self.u8(), wcrl: self.u8(), drcra: (self.below(2) as u8) << 5 },
         }
     }
